@@ -282,9 +282,9 @@ func c08KeyClass(before *ref.C08Overlay, ns, k string) string {
 
 // c08Pre is what is read from the real object before an operation, for the explanation of mismatches.
 type c08Pre struct {
-	marker    bool              // the child's name carries a deletion mark in the innermost transaction
-	bothMarks map[string]bool   // child keys held both as upsert and as deletion
-	noMarker  *ref.C08Overlay   // denotation with the mark on the child's name ignored
+	marker    bool            // the child's name carries a deletion mark in the innermost transaction
+	bothMarks map[string]bool // child keys held both as upsert and as deletion
+	noMarker  *ref.C08Overlay // denotation with the mark on the child's name ignored
 }
 
 func c08ReadPre(ts *TrieState) c08Pre {
@@ -296,10 +296,12 @@ func c08ReadPre(ts *TrieState) c08Pre {
 }
 
 // c08AltClear is the overlay clear with up to three named deviations from the pinned semantics:
-//   skipEq:     the backend key equal to the prefix is not found,
-//   stop:       the walk over the sorted union of overlay and backend keys stops when the limit is
-//               exhausted, so overlay keys sorting after that point survive (all of them for limit 0),
-//   notCounted: a backend key that the overlay has overwritten does not count towards the limit.
+//
+//	skipEq:     the backend key equal to the prefix is not found,
+//	stop:       the walk over the sorted union of overlay and backend keys stops when the limit is
+//	            exhausted, so overlay keys sorting after that point survive (all of them for limit 0),
+//	notCounted: a backend key that the overlay has overwritten does not count towards the limit.
+//
 // With all three false it is the pinned semantics (checked against the model at run time).
 func c08AltClear(backend ref.OMap, ovIn map[string]ref.C08Entry, prefix string, limit int, skipEq, stop, notCounted bool) ref.OMap {
 	ov := map[string]ref.C08Entry{}
